@@ -9,7 +9,7 @@ recomputed by the model's `timeSlice`."""
 from harness import runs, runcommon
 
 ID = "C07"
-THEOREM_MODULES = ["JF.Props.C07", "JF.Props.C07Eoc", "JF.Props.C07Float", "JF.Props.C12Chain"]
+THEOREM_MODULES = ["JF.Props.C07", "JF.Props.C07Eoc", "JF.Props.C07Float", "JF.Props.C12Chain", "JF.Props.SystemInv2"]
 COMPONENTS = ["sys"]
 ASSUMPTIONS = ["theorems: exact (rational) reading of the chain machine for point masses; committed times are non-decreasing "
                "because the scheduler returns a minimal live candidate (C06) and candidates are computed by adding a "
